@@ -34,13 +34,34 @@ def sha(*chunks):
     return h.hexdigest()[:16]
 
 
-def spec_hash(extra=""):
-    """Hash of every file under spec/ (the case cache key)."""
+def spec_deps(module, seen=None):
+    """Local spec modules reachable from `module` through EXTENDS / INSTANCE."""
+    seen = seen if seen is not None else set()
+    if module in seen:
+        return seen
+    path = os.path.join(SPEC, module + ".tla")
+    if not os.path.exists(path):
+        return seen
+    seen.add(module)
+    text = open(path).read()
+    for m in re.finditer(r"^\s*EXTENDS\s+(.+)$", text, re.M):
+        for name in m.group(1).split(","):
+            spec_deps(name.strip(), seen)
+    for m in re.finditer(r"INSTANCE\s+(\w+)", text):
+        spec_deps(m.group(1), seen)
+    return seen
+
+
+def spec_hash(module=None, extra=""):
+    """Hash of the spec modules `module` depends on (all of spec/ when None): the case cache key."""
     parts = []
-    for f in sorted(glob.glob(os.path.join(SPEC, "*"))):
-        if os.path.isfile(f):
-            parts.append(os.path.basename(f))
-            parts.append(open(f, "rb").read())
+    if module is None:
+        files = sorted(glob.glob(os.path.join(SPEC, "*.tla")))
+    else:
+        files = [os.path.join(SPEC, m + ".tla") for m in sorted(spec_deps(module))]
+    for f in files:
+        parts.append(os.path.basename(f))
+        parts.append(open(f, "rb").read())
     return sha(*parts, extra)
 
 
@@ -160,7 +181,7 @@ def run_tlc(module, cfg, *, workers=8, env=None, timeout=900, simulate=None,
                 m = re.match(r"Error: Invariant (\S+) is violated", line)
                 if m:
                     r.violated = m.group(1)
-                m = re.match(r"Error: (Temporal properties were violated|Action property (\S+) is violated|The postcondition.*)", line)
+                m = re.match(r"Error: (Temporal propert\w+ .*violated|Action property (\S+) is violated|The postcondition.*)", line)
                 if m and not r.violated:
                     r.violated = m.group(0)
                 if line.startswith("Error:") and not r.violated and not r.error:
@@ -187,7 +208,7 @@ def run_tlc(module, cfg, *, workers=8, env=None, timeout=900, simulate=None,
 def cached_tlc(name, module, cfg, **kw):
     """Run a generator spec once per (spec hash, cfg, env) and cache its
     PrintT lines + state counts under build/cases/."""
-    key = sha(spec_hash(), module, cfg, json.dumps(kw.get("env") or {}, sort_keys=True),
+    key = sha(spec_hash(module), module, cfg, json.dumps(kw.get("env") or {}, sort_keys=True),
               str(kw.get("simulate")), str(kw.get("depth")), str(kw.get("seed")))
     d = os.path.join(BUILD, "cases", key)
     meta = os.path.join(d, name + ".meta.json")
